@@ -1022,6 +1022,42 @@ def run(ctx):
         evaluate_lattice(ctx, c)
     evaluate_args(ctx, 250 if ctx.tier == "quick" else 2000, ctx.seed)
     evaluate_intersections(ctx, 60 if ctx.tier == "quick" else 400, ctx.seed)
+    default_scheme_sequence(ctx)
+
+
+def default_scheme_sequence(ctx):
+    """Sequence check for the colour clause: a call that overrides the first colour with the `color=` keyword must
+    not change what LATER calls with the default colour scheme draw (the default scheme is a shared module-level
+    list), nor the caller's own scheme list."""
+    import koala.plotting as pl
+    from koala import example_graphs as eg
+    res = ctx.res
+    lat = eg.honeycomb_lattice(3)
+    labels = np.arange(lat.n_edges) % 2
+    plabels = np.arange(lat.n_plaquettes) % 2
+    def snapshot():
+        a = call_impl(pl.plot_edges, lat, labels=labels)
+        b = call_impl(pl.plot_plaquettes, lat, labels=plabels)
+        if "exc" in a or "exc" in b:
+            return None
+        return read_edges(a["ax"])[1], [fc for _, fc in read_plaquettes(b["ret"] if isinstance(b["ret"], (list, tuple)) else [c for c in b["ax"].collections])]
+    before = snapshot()
+    mine = ["#111111", "#222222", "#333333"]
+    mine0 = list(mine)
+    for fn, lab in ((pl.plot_edges, labels), (pl.plot_plaquettes, plabels), (pl.plot_vertices, np.arange(lat.n_vertices) % 2)):
+        call_impl(fn, lat, labels=lab, color="#abcdef")
+        call_impl(fn, lat, labels=lab, color_scheme=mine, color="#fedcba")
+    after = snapshot()
+    res.count("sequence/color-keyword-then-default-scheme", ("seq", "color-kw"))
+    if before is None or after is None:
+        res.skip("sequence: default-scheme plot raised")
+        return
+    if mine != mine0:
+        res.violation("sequence:caller-scheme-modified", f"the caller's colour scheme list {mine0} was changed to {mine} by a call with color=", {"sequence": "color-kw"})
+    if before != after:
+        res.violation("sequence:default-scheme-changed-by-earlier-call", "after calls with the color= keyword, plot_edges / plot_plaquettes with the DEFAULT colour scheme draw "
+                      "label-0 elements in a different colour than before (the shared default scheme was modified): each drawn piece must carry the colour selected by its label",
+                      {"sequence": "color-kw"})
 
 
 def search(ctx):
